@@ -84,6 +84,14 @@ def _roundtrip(text: str):
 
 
 def _run_case(ctx, case) -> F.Outcome:
+    if case[0] == "session":
+        # saved-query pages refreshed twice in ONE long-lived `zorg edit` process
+        from mc.checks import sessions
+
+        try:
+            return sessions.run_case(ctx, case, {"queries", "index-vs-files"})
+        finally:
+            H.freeze(H.rotate(_DAYS, ctx.seed)[0])
     if case[0] == "pipe":
         from mc.checks import c12_pipeline
 
@@ -155,6 +163,9 @@ def _cases(ctx):
     from mc.checks import c12_moved
 
     cases += c12_moved.cases(ctx)
+    from mc.checks import sessions
+
+    cases += [c for c in sessions.cases(ctx) if any(p.endswith(".zoq") for p in sessions.SCENARIOS[c[1]][0])]
     return cases
 
 
@@ -163,6 +174,10 @@ def _sample(ctx, case):
         return {"pipeline_case": case}
     if case[0] == "moved":
         return {"moved_note_case": case}
+    if case[0] == "session":
+        from mc.checks import sessions
+
+        return sessions.sample(case)
     if case[0] == "single":
         _, k, p, ident, widx, tail = case
         page = M.APage(title=[M.W("t")], top_blocks=[[_mk_item(ctx.seed, k, p, ident, widx, tail)]])
